@@ -37,8 +37,8 @@ def verdict (A : Annot) (P : Prog) : String :=
   | none => "reject " ++ whyRejected A P
 
 /-- verdict of inference + verified checker -/
-def verdictInfer (P : Prog) : String :=
-  match inferAnnot P with
+def verdictInfer (P : Prog) (fixed : Binders := []) : String :=
+  match inferAnnot P fixed with
   | .error e => "reject infer:" ++ e.replace " " "_"
   | .ok A => verdict A P
 
